@@ -69,7 +69,9 @@ class RDD:
 
         :param Partition split: a partition
         """
-        return split.x()
+        # an iterator, as every derived dataset yields one: partition functions
+        # (mapPartitions) must not see - or modify - the backing list
+        return iter(split.x())
 
     def partitions(self):
         return self._p
